@@ -201,10 +201,12 @@ class _Inliner:
                 real[p_] = e
             else:
                 self.counter += 1
-                tmp = f"{g.name}__{p_}"
+                tmp = f"{g.name}__{p_}" if self.expansions.get(g.name, 0) == 0 else f"{g.name}_{self.expansions[g.name] + 1}__{p_}"
                 pre.append(ast.Assign(targets=[ast.Name(id=tmp, ctx=ast.Store())], value=copy.deepcopy(e), type_comment=None))
                 real[p_] = ast.Name(id=tmp, ctx=ast.Load())
-        prefix = g.name
+        self.expansions = getattr(self, "expansions", {})
+        k_ = self.expansions[g.name] = self.expansions.get(g.name, 0) + 1
+        prefix = g.name if k_ == 1 else f"{g.name}_{k_}"  # each expansion has its own locals
 
         class R(ast.NodeTransformer):
             def visit_Name(self, n):
